@@ -98,6 +98,7 @@ def r1(ctx, R):
     # (c) collocation restriction with the full row of Rcoll
     rs = _row_sum(N, f'{G}.u[i1]', 'self.Rcoll')
     ok = rs is not None and 'error' not in rs and rs['rows'] == {'i1-1'} and rs['vec'] == {tmpu} and rs['lo'] == Affine(0) and rs['hi'] == Affine(-1, {MF: 1}) and rs['signs'] == {1} and rs['ops'].count('=') <= 1
+    ok = ok and all(c.loops and repr(c.loops[0]) == f'i1=1..{MG}' for c in rs['contribs'])
     R.check(ok, 'restrict :: G.u[n] = sum over the FULL row n of Rcoll times the restricted fine values', w, f'columns 0..{MF}-1, row n-1, vector index = column', rs if not rs or 'error' in rs else {k: str(v) for k, v in rs.items() if k != 'contribs'})
     # (d) coarse f re-evaluated from the restricted u at coarse node times
     f0 = one(lambda c: c.target == f'{G}.f[0]', '')
@@ -176,6 +177,8 @@ def _prolong_checks(R, repo, rel, cn, meth, exact=True):
         if exact and ok and k in got:
             rs = _row_sum(N, f'{F}.{k}[i1]', 'self.Pcoll')
             ok = rs is not None and 'error' not in rs and rs['rows'] == {'i1-1'} and rs['vec'] == {got[k].target.split('[')[0]} and rs['lo'] == Affine(0) and rs['hi'] == Affine(-1, {MG: 1})
+            # every fine node is updated: the outer loop runs over 1..MF
+            ok = ok and all(c.loops and repr(c.loops[0]) == f'i1=1..{MF}' for c in rs['contribs'])
         R.check(ok, f'{cn}.{meth} :: fine {k} is updated by += (full row of Pcoll times the prolonged correction)', w, f'F.{k}[n] += sum_m Pcoll[n,m] * P(G.{k}[m] - G.{k}old[m])', [c.describe()[:160] for c in tgt])
     ev = [c for c in C if c.rhs and c.rhs.startswith(f'{FF}.prob.eval_f(')]
     if meth == 'prolong':
@@ -232,7 +235,7 @@ def r3(ctx, R):
         R.check(ok, f'{cn}.restrict :: coarse integral taken after the coarse f was re-evaluated', w, 'eval_f ... then G.sweep.integrate()', [c.describe()[:100] for c in tg])
 
 
-@rule('C10', 'C10.R4', 'stage order: down = transfer then mid-level sweeps then transfer; coarse sweep on the last level; up = prolong descending, sweeps only above level 0; transfer registry', floor=8)
+@rule('C10', 'C10.R4', 'stage order: down = transfer then mid-level sweeps then transfer; coarse sweep on the last level; up = prolong descending, sweeps only above level 0; transfer registry', floor=12)
 def r4(ctx, R):
     repo = ctx.repo
     for spec in (ct.NONMPI, ct.MPI):
@@ -252,6 +255,9 @@ def r4(ctx, R):
             # the onward transfer of level l follows its sweeps inside the same level loop
             ok = ok and lp[0] in h.cfg.loops_of[id(h.cfg.stmt_of[mid[0]])] and not h.cfg.reachable(_a2(h, mid[0], lp[0]), ups[0][0], without=[h.cfg.node_of[id(lp[0])]])
         R.check(ok, f'{spec[1]}.it_down :: restrict 0->1 first; sweeps only on middle levels 1..L-2; then restrict l->l+1', h.where, 'transfer(0,1); for l in 1..L-2: sweeps(l); transfer(l,l+1)', [kw for _, kw in tr])
+        from . import c07
+        c07.sweep_count_checks(R, spec, hs['IT_DOWN'])
+        c07.sweep_count_checks(R, spec, hs['IT_UP'])
         # ---- coarse
         h = hs['IT_COARSE']
         R.fn(h.where)
